@@ -1,6 +1,9 @@
 #!/bin/sh
 # Build every harness binary once, offline, from /repo's current working tree (hooks on).
 set -e
-cd "$(dirname "$0")/harness"
-export CARGO_NET_OFFLINE=true CARGO_TARGET_DIR="$(dirname "$0")/../.target"
-CARGO_TARGET_DIR=/verif/.target cargo build --profile verif --offline --bins
+HERE="$(cd "$(dirname "$0")" && pwd)"
+export CARGO_NET_OFFLINE=true
+cd "$HERE/harness"
+CARGO_TARGET_DIR="$HERE/.target" cargo build --profile verif --offline --bins
+cd "$HERE/harness_loom"
+CARGO_TARGET_DIR="$HERE/.target/loom" cargo build --release --offline
